@@ -680,6 +680,10 @@ func runDecBounds(c *core.Ctx) {
 						}
 					}
 				}
+				if newBoundsProver(c).indexInRange(x, idx, in.Block()) {
+					c.OK(nil, fname(c, fn), construct, pos, "index is non-negative by construction and below len of the same value by a dominating comparison")
+					return
+				}
 				c.Unknown(nil, fname(c, fn), construct, pos, "index "+an.PathOf(idx)+" not proven within "+strings.Join(facts, " = "))
 			case "slice":
 				// s[len(p):] behind strings.HasPrefix(s, p)
@@ -717,6 +721,10 @@ func runDecBounds(c *core.Ctx) {
 				}
 				if lo == nil && hi == nil {
 					c.Trivial(nil, fname(c, fn), construct, pos, "full slice")
+					return
+				}
+				if newBoundsProver(c).sliceInRange(x, lo, hi, in.Block()) {
+					c.OK(nil, fname(c, fn), construct, pos, "slice bounds ordered and within len of the same value by construction and dominating comparisons")
 					return
 				}
 				c.Unknown(nil, fname(c, fn), construct, pos, "slice bounds not proven within "+strings.Join(facts, " = "))
